@@ -15,30 +15,32 @@
 (*       about - the UDP and the TCP Transport number their sessions 1, 2, ... in the order the servers were first        *)
 (*       contacted (SrvRecv.srv), sessionToServer_ is ONE map over both - and, where the entry of the session a response  *)
 (*       travels on names another server, neither the completion (due) nor the TCP fallback query is demanded;            *)
+(*       the named deviation AllowCleanupRace (X18-O5), only in the directed probe (Begin.probe = 1) that holds the       *)
+(*       cleanup thread between its phases 1 and 3: a SECOND Done of kind timeout for a query that was already completed;    *)
 (*   P5  transmissions of one query <= 1 + retryCount (+1 after a truncation in mode Both);                               *)
 (*   P6  Done(timeout) carries early = 0 (the driver compares the steady clock with config.timeout: one-sided).           *)
 EXTENDS TraceBase, FiniteSets, Integers
-CONSTANTS AllowWrongQ, AllowDupTrunc, AllowSidCollision
-VARIABLES mode, api, retries, tclass, issued, late, nd, sent, rcv, due, stopc, stopr,
+CONSTANTS AllowWrongQ, AllowDupTrunc, AllowSidCollision, AllowCleanupRace
+VARIABLES probe, mode, api, retries, tclass, issued, late, nd, sent, rcv, due, stopc, stopr,
           srvU, usid, tsid, s2s   \* server of a query, session numbers per server, the shared session -> server map
-vars == <<l, mode, api, retries, tclass, issued, late, nd, sent, rcv, due, stopc, stopr, srvU, usid, tsid, s2s>>
+vars == <<l, probe, mode, api, retries, tclass, issued, late, nd, sent, rcv, due, stopc, stopr, srvU, usid, tsid, s2s>>
 Srvs == {0, 1}
 QS == {1, 2}
-Canon(m, a, r, t) == /\ mode' = m /\ api' = a /\ retries' = r /\ tclass' = t /\ issued' = {} /\ late' = {}
+Canon(m, a, r, t) == /\ probe' = (IF Log[l].e = "Begin" THEN Ev.probe ELSE 0) /\ mode' = m /\ api' = a /\ retries' = r /\ tclass' = t /\ issued' = {} /\ late' = {}
                      /\ nd' = [q \in QS |-> 0] /\ sent' = {} /\ rcv' = [q \in QS |-> [udp |-> 0, tcp |-> 0]]
                      /\ due' = {} /\ stopc' = FALSE /\ stopr' = FALSE
                      /\ srvU' = [q \in QS |-> 0] /\ usid' = [s \in Srvs |-> 0] /\ tsid' = [s \in Srvs |-> 0] /\ s2s' = [i \in 1..2 |-> 9]
-Init == /\ l = 1 /\ mode = "-" /\ api = "-" /\ retries = 0 /\ tclass = "-" /\ issued = {} /\ late = {} /\ nd = [q \in QS |-> 0]
+Init == /\ l = 1 /\ probe = 0 /\ mode = "-" /\ api = "-" /\ retries = 0 /\ tclass = "-" /\ issued = {} /\ late = {} /\ nd = [q \in QS |-> 0]
         /\ sent = {} /\ rcv = [q \in QS |-> [udp |-> 0, tcp |-> 0]] /\ due = {} /\ stopc = FALSE /\ stopr = FALSE
         /\ srvU = [q \in QS |-> 0] /\ usid = [s \in Srvs |-> 0] /\ tsid = [s \in Srvs |-> 0] /\ s2s = [i \in 1..2 |-> 9]
 sess == <<srvU, usid, tsid, s2s>>
-Same == UNCHANGED <<mode, api, retries, tclass, issued, late, nd, sent, rcv, due, stopc, stopr, sess>>
+Same == UNCHANGED <<probe, mode, api, retries, tclass, issued, late, nd, sent, rcv, due, stopc, stopr, sess>>
 
 EvBegin == IsEv("Begin") /\ Canon(Ev.mode, Ev.api, Ev.retries, Ev.tmo)
 EvReset == IsEv("Reset") /\ Canon("-", "-", 0, "-")
 EvQuery == /\ IsEv("Query") /\ Ev.q \in QS /\ Ev.q \notin issued /\ issued' = issued \cup {Ev.q}
            /\ late' = IF stopr THEN late \cup {Ev.q} ELSE late
-           /\ UNCHANGED <<mode, api, retries, tclass, nd, sent, rcv, due, stopc, stopr, sess>>
+           /\ UNCHANGED <<probe, mode, api, retries, tclass, nd, sent, rcv, due, stopc, stopr, sess>>
 EvQueryRet == IsEv("QueryRet") /\ Same
 TruncSent(q) == \E s \in sent : s.q = q /\ s.kind = "trunc"
 Within(q, nu, nt) == nu + nt <= 1 + retries + (IF mode = "B" /\ TruncSent(q) THEN 1 ELSE 0)                     \* P5
@@ -54,7 +56,7 @@ EvSrvRecv == /\ IsEv("SrvRecv") /\ Ev.ok = TRUE /\ Ev.q \in issued /\ ProtoOk(Ev
              /\ srvU' = [srvU EXCEPT ![Ev.q] = Ev.srv]
              /\ IF Ev.proto = "udp" THEN usid' = Open(usid, Ev.srv) /\ s2s' = Map(usid, Ev.srv) /\ UNCHANGED tsid
                                     ELSE tsid' = Open(tsid, Ev.srv) /\ s2s' = Map(tsid, Ev.srv) /\ UNCHANGED usid
-             /\ UNCHANGED <<mode, api, retries, tclass, issued, late, nd, sent, due, stopc, stopr>>
+             /\ UNCHANGED <<probe, mode, api, retries, tclass, issued, late, nd, sent, due, stopc, stopr>>
 \* a transmission the script waited for did not arrive: accepted when the query had completed meanwhile (its timer fired
 \* before the transport saw the truncated response) - and, a query still pending, only as the named deviation: the TCP
 \* fallback after a truncated response on a misrouted session
@@ -64,13 +66,13 @@ EvSrvRecvMissing == /\ IsEv("SrvRecv") /\ Ev.ok = FALSE /\ Ev.q \in issued /\ Sa
 EvExtra == /\ IsEv("Extra") /\ Ev.q \in issued /\ ProtoOk(Ev.q, Ev.proto)
            /\ rcv' = [rcv EXCEPT ![Ev.q][Ev.proto] = Ev.n]
            /\ Within(Ev.q, rcv'[Ev.q].udp, rcv'[Ev.q].tcp)
-           /\ UNCHANGED <<mode, api, retries, tclass, issued, late, nd, sent, due, stopc, stopr, sess>>
+           /\ UNCHANGED <<probe, mode, api, retries, tclass, issued, late, nd, sent, due, stopc, stopr, sess>>
 Completing(k) == k \in {"ans", "nx", "malformed"} \/ (k = "trunc" /\ mode = "U")
 EvSrvSend == /\ IsEv("SrvSend") /\ sent' = sent \cup {[q |-> Ev.q, kind |-> Ev.kind, tag |-> Ev.tag]}
              /\ due' = IF /\ Completing(Ev.kind) /\ Ev.q \in issued /\ nd[Ev.q] = 0 /\ ~stopc
                           /\ ~(AllowSidCollision /\ Misrouted(Ev.q, Ev.proto))
                        THEN due \cup {Ev.q} ELSE due
-             /\ UNCHANGED <<mode, api, retries, tclass, issued, late, nd, rcv, stopc, stopr, sess>>
+             /\ UNCHANGED <<probe, mode, api, retries, tclass, issued, late, nd, rcv, stopc, stopr, sess>>
 Caused(q, tag, kinds) == \E s \in sent : s.q = q /\ s.tag = tag /\ s.kind \in kinds
 Legit(q, k, tag, early) ==
   CASE k = "ans" -> Caused(q, tag, IF AllowWrongQ THEN {"ans", "wrongq"} ELSE {"ans"})                          \* P3
@@ -87,16 +89,21 @@ EvDone == /\ IsEv("Done") /\ Ev.q \in issued /\ nd[Ev.q] = 0                    
           /\ (stopr => (Ev.q \in late \/ api = "sync"))                                                          \* P2
           /\ Legit(Ev.q, Ev.kind, Ev.tag, Ev.early)
           /\ nd' = [nd EXCEPT ![Ev.q] = 1]
-          /\ UNCHANGED <<mode, api, retries, tclass, issued, late, sent, rcv, due, stopc, stopr, sess>>
+          /\ UNCHANGED <<probe, mode, api, retries, tclass, issued, late, sent, rcv, due, stopc, stopr, sess>>
 \* lim = 15 (s): after a step that must complete the query, or for the timeout; lim = 2: after a response the as-is model
 \* says is dropped (it does not wait for the timer)
+\* X18-O5: phase 4 of the cleanup thread calls back a query that a response (or its timer) completed after phase 1
+EvDoneAgain == /\ IsEv("Done") /\ AllowCleanupRace /\ probe = 1 /\ Ev.q \in issued /\ nd[Ev.q] = 1 /\ Ev.kind = "timeout"
+               /\ Ev.early = 0 /\ ~stopr /\ nd' = [nd EXCEPT ![Ev.q] = 2]
+               /\ UNCHANGED <<probe, mode, api, retries, tclass, issued, late, sent, rcv, due, stopc, stopr, sess>>
+EvProbe == IsEv("Probe") /\ probe = 1 /\ Same
 EvWait == IsEv("Wait") /\ (Ev.got = TRUE \/ (Ev.q \notin due /\ (tclass = "L" \/ Ev.lim < 15))) /\ Same               \* P1
 EvFence == IsEv("Fence") /\ Same
-EvStopCall == IsEv("StopCall") /\ stopc' = TRUE /\ UNCHANGED <<mode, api, retries, tclass, issued, late, nd, sent, rcv, due, stopr, sess>>
-EvStopRet == /\ IsEv("StopRet") /\ stopr' = TRUE /\ (api = "async" => \A q \in issued : nd[q] = 1)               \* P2
-             /\ UNCHANGED <<mode, api, retries, tclass, issued, late, nd, sent, rcv, due, stopc, sess>>
-EvEnd == IsEv("End") /\ (\A q \in issued : nd[q] = 1) /\ Same                                                    \* P1
-Next == EvBegin \/ EvReset \/ EvQuery \/ EvQueryRet \/ EvSrvRecv \/ EvSrvRecvMissing \/ EvExtra \/ EvSrvSend \/ EvDone \/ EvWait \/ EvFence
+EvStopCall == IsEv("StopCall") /\ stopc' = TRUE /\ UNCHANGED <<probe, mode, api, retries, tclass, issued, late, nd, sent, rcv, due, stopr, sess>>
+EvStopRet == /\ IsEv("StopRet") /\ stopr' = TRUE /\ (api = "async" => \A q \in issued : nd[q] >= 1)               \* P2
+             /\ UNCHANGED <<probe, mode, api, retries, tclass, issued, late, nd, sent, rcv, due, stopc, sess>>
+EvEnd == IsEv("End") /\ (\A q \in issued : nd[q] >= 1) /\ Same                                                    \* P1
+Next == EvBegin \/ EvReset \/ EvQuery \/ EvQueryRet \/ EvSrvRecv \/ EvSrvRecvMissing \/ EvExtra \/ EvSrvSend \/ EvDone \/ EvDoneAgain \/ EvProbe \/ EvWait \/ EvFence
         \/ EvStopCall \/ EvStopRet \/ EvEnd
 Spec == Init /\ [][Next]_vars
 ======================================================================================
